@@ -441,3 +441,77 @@ def _v1_verdicts(chk, repo, fi, rd, classes, atom_line, wrong, stops, raises, mo
         chk.expect(len(blank) == 1 and blank[0].get("auth.icode") is None, "pdb-decoding", site, "a blank insertion code is read as None", f"a blank insertion code is read as {blank[0].get('auth.icode')!r}, not None" if blank else "a line with a blank insertion code is not decoded", K(fi, "blank-icode"))
         if not bad:
             chk.ok("pdb-atom-record", site, "evaluated: Atom(None, None, ResidueAuth(chain, number, icode, name), model, atom name, x, y, z, occupancy)")
+
+
+# --------------------------------------------------------------------------------------------------------------------
+# read_3d_structure: model selection
+# --------------------------------------------------------------------------------------------------------------------
+MODEL_FILES = [
+    ("models 1, 2, 3 in order", [1, 1, 2, 2, 3]),
+    ("models in the order 5, 2, 9 (first model is not the smallest)", [5, 5, 2, 2, 9]),
+    ("a single model 4", [4, 4, 4]),
+    ("models 0 and 1", [0, 0, 1]),
+    ("atoms of models 1 and 2 interleaved", [1, 2, 1, 2]),
+]
+
+
+def check_model_selection_eval(chk) -> bool:
+    repo = chk.repo
+    fi = repo.func(P, "read_3d_structure")
+    params = [a.arg for a in fi.node.args.args]
+    if len(params) != 3:
+        return False
+    cases: Dict[str, List[str]] = {"requested": [], "default": [], "absent": [], "pass": [], "reader": []}
+    n = 0
+    try:
+        for is_cif in (True, False):
+            for tag, models in MODEL_FILES:
+                atoms = [Obj(f"atom{k}", model=m, label=None, auth=None, name="X", occupancy=1.0) for k, m in enumerate(models)]
+                other = [Obj("foreign", model=models[0], label=None, auth=None, name="X", occupancy=1.0)]
+                requests = [None] + sorted(set(models)) + [7]
+                for req in requests:
+                    got: List[Any] = []
+                    env: Dict[str, Any] = {
+                        "is_cif": lambda f, _v=is_cif: _v,
+                        "parse_cif": lambda f, _v=is_cif: ((atoms if _v else other), "MOD", "SEQ", "NA"),
+                        "parse_pdb": lambda f, _v=is_cif: ((other if _v else atoms), "MOD", "SEQ", "NA"),
+                        "group_atoms": lambda *a: (got.append(a), Obj("structure"))[1],
+                    }
+                    env.update(module_callables(repo, P, outer=env))
+                    call = func_callable(repo, P, fi.node, env)
+                    n += 1
+                    try:
+                        res = call(Obj("file"), req, True)
+                    except Raised as ex:
+                        cases["requested" if req in models else "default"].append(f"{tag}, model={req}: raises {ex.name}")
+                        continue
+                    except Unknown:
+                        raise
+                    except Exception as ex:
+                        cases["requested" if req in models else "default"].append(f"{tag}, model={req}: raises {type(ex).__name__}")
+                        continue
+                    if len(got) != 1 or not isinstance(res, Obj) or res._tag != "structure" or len(got[0]) != 5:
+                        cases["pass"].append(f"{tag}, model={req}: the result is not group_atoms(atoms, modified, sequences, nucleic-acid table, flag) called once")
+                        continue
+                    sel = list(got[0][0])
+                    if any(a._tag == "foreign" for a in sel):
+                        cases["reader"].append(f"{'mmCIF' if is_cif else 'PDB'} input is read with the other format's parser")
+                        continue
+                    if tuple(got[0][1:]) != ("MOD", "SEQ", "NA", True):
+                        cases["pass"].append(f"group_atoms receives {[str(x) for x in got[0][1:]]} after the atoms, not (modified, sequence_by_entity, is_nucleic_acid_by_entity, nucleic_acid_only)")
+                    m = req if req in models else models[0]
+                    want = [a._tag for a in atoms if a.model == m]
+                    have = [a._tag for a in sel]
+                    if have != want:
+                        kind = "requested" if req in models else ("default" if req is None else "absent")
+                        sel_models = sorted({a.model for a in sel})
+                        cases[kind].append(f"{tag}, model={req}: atoms of model(s) {sel_models or 'none'} are returned{'' if sel_models != [m] else ' (not all of them, or in another order)'}, expected the atoms of model {m}")
+    except Unknown as ex:
+        chk.ok("model-selection-eval", fi.where, f"read_3d_structure is not evaluable on representative files ({str(ex)[:80]}): the symbolic path rule decides")
+        return False
+    with evidence(chk, "model-selection"):
+        chk.expect(not cases["requested"], "model-selection", fi.where, "evaluated: a requested model that is present selects exactly the atoms with that model number, in file order", "a requested model that is present does not select exactly its atoms: " + "; ".join(cases["requested"][:2]), K(fi, "select-requested"), found=cases["requested"][:6])
+        chk.expect(not cases["default"], "model-selection", fi.where, "evaluated: without a requested model the first model of the file (order of first appearance) is selected", "without a requested model the first model of the file is not what is returned: " + "; ".join(cases["default"][:2]), K(fi, "select-default"), found=cases["default"][:6])
+        chk.expect(not cases["absent"], "model-selection", fi.where, "evaluated: a requested model that is absent falls back to the first model of the file", "a requested model that is absent does not fall back to the first model: " + "; ".join(cases["absent"][:2]), K(fi, "select-absent"), found=cases["absent"][:6])
+        chk.expect(not cases["pass"] and not cases["reader"], "model-selection", fi.where, f"evaluated on {n} (file, request) cases: the selected atoms and the reader's side tables are handed to group_atoms unchanged; mmCIF input is read by parse_cif, PDB input by parse_pdb", "; ".join((cases["reader"] + cases["pass"])[:2]), K(fi, "select-pass"), found=(cases["reader"] + cases["pass"])[:6])
+    return True
